@@ -9,6 +9,15 @@ guards of the actions record what the controller guarantees at the place where i
 Stop body only begins when System State is neither Stopped nor Restarting).  Invariants of the engine fields
 are then proved once on the small system (`Reach.inv`) and transfer to every operation sequence of the model.
 
+With `Cfg.cancel2` (/repo 90a68ba6) Stop and Restart cancel all commands a second time at the start of their
+second phase.  At that place the controller guarantees nothing locally about System State (that the Stop /
+Restart instance is still alive there is a property of the request lists, not of the engine fields), so the
+effects of this second cancel — Unpause / Unhold of cancelled Pause / Hold instances, the pending Restart
+dropped — are not given as separate guarded actions but folded into the step they precede: `stopFinishC fx drop`
+and `restartMidC fx` (= `stopFinish` / `restartMid` after `applyFx fx`).  Both end in the fully reset state, so
+every invariant is checked on the result only; `cancelAll_fx` shows that the second cancel has no other effect
+on the abstract state.
+
 `Perm.err` says whether `set_error_state` may strike while no run is active; `Perm.clk` whether the clock
 update is among the actions (it is excluded when a tick is split into "before / clock update / after").
 -/
